@@ -4,6 +4,9 @@ package wallet
 
 import (
 	"context"
+	"errors"
+	"regexp"
+	"strings"
 
 	api "github.com/attestantio/go-eth2-client/api/v1"
 	"github.com/attestantio/go-eth2-client/spec/phase0"
@@ -156,4 +159,69 @@ func VerifC17_RefreshVsLookup() {
 	left := vnd.Quiesce()
 	vnd.Assert(left == 0, "C17.accounts.everything-returns")
 	vnd.Cover("C17.accounts.overlap-explored")
+}
+
+// a keystore account: can be unlocked with the passphrase "secret"
+type c13Locked struct {
+	vstub.Account
+	unlocked bool
+}
+
+func (a *c13Locked) Lock(_ context.Context) error { a.unlocked = false; return nil }
+func (a *c13Locked) Unlock(_ context.Context, passphrase []byte) error {
+	if string(passphrase) != "secret" {
+		return errors.New("incorrect passphrase")
+	}
+	a.unlocked = true
+	return nil
+}
+func (a *c13Locked) IsUnlocked(_ context.Context) (bool, error) { return a.unlocked, nil }
+
+var c13Specifiers = []string{"Wallet 1", "Wallet 1/Account 1", "Wallet 1/Account [0-9]", "Wallet 1/^Acc.*$", "Wallet 1/^Account 1$", "Wallet 2", "Wallet 1/.*2"}
+var c13Names = []string{"Account 1", "Account 10", "Account 2", "Extra Account 1", "Acc"}
+
+func c13FullMatch(spec, wallet, account string) bool {
+	parts := strings.SplitN(spec, "/", 2)
+	a := ".*"
+	if len(parts) == 2 && parts[1] != "" {
+		a = strings.TrimSuffix(strings.TrimPrefix(parts[1], "^"), "$")
+	}
+	return parts[0] == wallet && regexp.MustCompile("^(?:"+a+")$").MatchString(account)
+}
+
+// VerifC13_Specifiers: a keystore account of wallet "Wallet 1" is used exactly
+// when its wallet/account name fully matches one of the configured specifiers
+// and one of the configured passphrases unlocks it.
+func VerifC13_Specifiers() {
+	specs := []string{c13Specifiers[vnd.Choose("specifier", len(c13Specifiers))]}
+	if vnd.Bool("second-specifier") {
+		specs = append(specs, c13Specifiers[vnd.Choose("specifier2", len(c13Specifiers))])
+	}
+	pass := [][]byte{[]byte("wrong"), []byte("secret")}
+	if vnd.Bool("passphrase-unknown") {
+		pass = pass[:1]
+	}
+	s := &Service{accounts: map[phase0.BLSPubKey]e2wtypes.Account{}, accountPaths: specs, processConcurrency: 2, passphrases: pass}
+	w1 := &vstub.Wallet{Nm: "Wallet 1"}
+	for i, nm := range c13Names {
+		acc := &c13Locked{}
+		acc.Tag, acc.Nm = uint64(i+1), nm
+		acc.Key.B = phase0.BLSPubKey{byte(i + 1)}
+		w1.Accs = append(w1.Accs, acc)
+	}
+	got := map[phase0.BLSPubKey]e2wtypes.Account{}
+	s.fetchAccountsForWallet(context.Background(), w1, got, s.accountPathsToVerificationRegexes(specs))
+	for i, nm := range c13Names {
+		want := false
+		for _, sp := range specs {
+			want = want || c13FullMatch(sp, "Wallet 1", nm)
+		}
+		want = want && len(pass) == 2
+		_, used := got[phase0.BLSPubKey{byte(i + 1)}]
+		vnd.Assert(used == want, "C13.specifiers.account-used-iff-its-name-fully-matches-a-specifier-and-it-unlocks")
+		if used {
+			vnd.Cover("C13.specifiers.account-used")
+		}
+	}
+	vnd.Assert(vnd.Quiesce() == 0, "C13.specifiers.goroutines-finish")
 }
